@@ -32,6 +32,8 @@ type preludeBlock struct {
 }
 
 type Engine struct {
+	keyFmt      *FmtStr
+	keyFmtErr   string
 	cellVars    map[*types.Var]bool
 	cntNames    []string
 	fset        *token.FileSet
